@@ -585,6 +585,16 @@ type Contracts struct {
 	Lemmas []*Lemma
 	Ghosts []GhostVar
 	Files  []string
+	OnlyWriters []OnlyWriter
+}
+
+// OnlyWriter: "only-writer <Struct.field> ... : <func> ... [label tags]" -- the listed fields of objects that existed at
+// entry are stored DIRECTLY only by the listed functions (other functions may change them through calls only).
+type OnlyWriter struct {
+	Heaps map[string]bool
+	Funcs map[string]bool
+	Label string
+	Tags  []string
 }
 
 // framesets: named modifies lists (textual macros), reset per contract set.
@@ -738,6 +748,38 @@ func (cs *Contracts) LoadFile(path string, flags map[string]bool) error {
 				return fail(fmt.Errorf("frameset Name = items"))
 			}
 			framesets[strings.TrimSpace(rest[:i])] = strings.TrimSpace(rest[i+1:])
+			cur = nil
+		case "only-writer":
+			// only-writer parser.maxFailPos parser.maxFailExpected : parser.failAt [far-writer C12]
+			i := strings.Index(rest, " : ")
+			if i >= 0 {
+				i++
+			}
+			j := strings.LastIndex(rest, "[")
+			if i < 0 || j < i || !strings.HasSuffix(strings.TrimSpace(rest), "]") {
+				return fail(fmt.Errorf("only-writer <Struct.field> ... : <func> ... [label tags]"))
+			}
+			ow := OnlyWriter{Heaps: map[string]bool{}, Funcs: map[string]bool{}}
+			for _, f := range strings.Fields(rest[:i]) {
+				if strings.HasPrefix(f, "heap:") {
+					ow.Heaps[strings.TrimPrefix(f, "heap:")] = true // a heap array by its name (pointees: P_<sort>)
+					continue
+				}
+				k := strings.Index(f, ".")
+				if k <= 0 {
+					return fail(fmt.Errorf("only-writer: field %q must be Struct.field", f))
+				}
+				ow.Heaps[fieldHeap(f[:k], f[k+1:])] = true
+			}
+			for _, f := range strings.Fields(rest[i+1 : j]) {
+				ow.Funcs[f] = true
+			}
+			lt := strings.Fields(strings.TrimSuffix(strings.TrimSpace(rest[j+1:]), "]"))
+			if len(lt) < 2 {
+				return fail(fmt.Errorf("only-writer: [label tag ...]"))
+			}
+			ow.Label, ow.Tags = lt[0], lt[1:]
+			cs.OnlyWriters = append(cs.OnlyWriters, ow)
 			cur = nil
 		case "ghost":
 			w2, r2 := splitWord(rest)
